@@ -361,6 +361,18 @@ def dispatch(it, body, st, t, fn, args, depth):
             if kz:
                 return [("panic", st, "gen_biguint_below(0)")]
             return ret(st, MAG(opaque_sym("below", v[1])))
+    if path == "bigint::shift::shr_round_down" and len(args) == 2:
+        # trusted summary (its read-set is checked by R9): false for non-negative values, otherwise "some one bit is shifted out"
+        v = it.deref_all(st, args[0])
+        if v[0] == "struct":
+            sg = v[2]["sign"]
+            if sg[2] is not None:
+                raise NeedFork(("zero", sg[2]))
+            if sg[1] >= 0:
+                return ret(st, BOOL(False))
+            if "round_down" not in st.bools:
+                raise NeedFork(("bool", "round_down"))
+            return ret(st, BOOL(st.bools["round_down"]))
     # ---- constructors
     if path == "bigint::BigInt::from_biguint":
         s = args[0]
